@@ -121,6 +121,47 @@ fn part_entry_points(thorough: bool) -> Acc {
         .reduce(Acc::new, Acc::merge)
 }
 
+/// part 1b: the string entry points on every edge of the nodelist transition system (the explorations of C01-C03
+/// drive the evaluator through queries assembled from parsed segments; here the rendered query string of the same
+/// edge goes through `query_with_path`, `query` and `query_only_path` and must give what the assembled query gives)
+fn part_entry_points_bfs(thorough: bool) -> Acc {
+    use crate::explore::bfs::{bfs, BfsParams};
+    use crate::gen::alpha::{alphabet, AlphaSize};
+    let mut docs = crate::gen::docs::universe(if thorough { 2 } else { 1 }, 2, &[json!(1), json!("a")], &["b", "a"]);
+    docs.extend(crate::gen::docs::names_universe(false));
+    docs.extend(crate::gen::docs::panel());
+    let params = BfsParams { lmax: 8, max_depth: 2, max_states: 400 };
+    docs.par_iter()
+        .map(|d| {
+            let mut acc = Acc::new();
+            let alpha = alphabet(d, if thorough { AlphaSize::Unions } else { AlphaSize::Singles }, 3, true);
+            bfs(d, &alpha, &params, &mut acc, |e, acc| {
+                let q = e.query_string();
+                let a = imp::run_with_path(&q, e.doc, e.am);
+                if &a != e.out {
+                    acc.viol(
+                        format!("{} on {}: query_with_path returns {:?} but the same query assembled from its parsed segments returns {:?}", q, e.doc, a, e.out),
+                        json!({"kind": "entry-points", "class": "string entry vs assembled query", "query": q, "doc": e.doc}),
+                    );
+                    return;
+                }
+                if let ImplOut::Ok(v) = &a {
+                    if !v.is_empty() {
+                        acc.nontrivial += 1;
+                    }
+                    let ids: Vec<u32> = v.iter().map(|x| x.0).collect();
+                    let paths: Vec<String> = v.iter().map(|x| x.1.clone()).collect();
+                    if imp::run_query(&q, e.doc, e.am) != Ok(Ok(ids)) || imp::run_only_path(&q, e.doc) != Ok(Ok(paths)) {
+                        acc.viol(format!("{} on {}: query / query_only_path disagree with query_with_path", q, e.doc), json!({"kind": "entry-points", "class": "entry points", "query": q, "doc": e.doc}));
+                    }
+                }
+            });
+            // the BFS bookkeeping counts its own edges; keep only this part's view
+            acc
+        })
+        .reduce(Acc::new, Acc::merge)
+}
+
 // ---------------------------------------------------------------------------------------------
 // part 2: histories
 
@@ -852,6 +893,10 @@ pub fn run(tier: &str) -> i32 {
     let a = part_entry_points(th);
     eprintln!("  entry points: {} cases, {:.1}s", a.evals, t0.elapsed().as_secs_f64());
     let t0 = std::time::Instant::now();
+    let a1 = part_entry_points_bfs(th);
+    eprintln!("  entry points on nodelist-transition edges: {} edges, {:.1}s", a1.transitions, t0.elapsed().as_secs_f64());
+    let a = a.merge(a1);
+    let t0 = std::time::Instant::now();
     let b = match part_histories(th) {
         Ok(b) => b,
         Err(e) => {
@@ -883,7 +928,7 @@ pub fn run(tier: &str) -> i32 {
     }
     run.finish(
         acc,
-        "entry points: one case = (query string, document) through query, query_only_path, query_with_path, a query parsed once (twice, and cloned) with the document serialized before and after; histories: every pair of operations of a 37-operation alphabet (32 evaluations + 5 queries the parser must reject) in its own fresh process and, in one process, every window of length w, each result compared with the same operation run first in a fresh process (states = operations, transitions = executed operations); update histories: every sequence of up to 2 (3) in-place writes through reference_mut on a live document, a panel of 12 queries evaluated before and after each write on the live document and on an equal freshly built one (differential); schedules: stateless depth-first exploration of every interleaving with at most k preemptions of 2-3 real threads sharing one parsed query and one document, scheduling points = the verif hooks at every evaluation step, each thread's results compared with the operations run alone (transitions = complete schedules, states = distinct observed outcomes); non-trivial = operations / schedules executed",
+        "entry points: one case = (query string, document) through query, query_only_path, query_with_path, a query parsed once (twice, and cloned) with the document serialized before and after, plus every edge of a nodelist-transition BFS (names universe, small universe, panel) whose rendered query string must give through the string entry points what the query assembled from parsed segments gives; histories: every pair of operations of a 37-operation alphabet (32 evaluations + 5 queries the parser must reject) in its own fresh process and, in one process, every window of length w, each result compared with the same operation run first in a fresh process (states = operations, transitions = executed operations); update histories: every sequence of up to 2 (3) in-place writes through reference_mut on a live document, a panel of 12 queries evaluated before and after each write on the live document and on an equal freshly built one (differential); schedules: stateless depth-first exploration of every interleaving with at most k preemptions of 2-3 real threads sharing one parsed query and one document, scheduling points = the verif hooks at every evaluation step, each thread's results compared with the operations run alone (transitions = complete schedules, states = distinct observed outcomes); non-trivial = operations / schedules executed",
         &[
             "scheduling points exist only at the hooks; safe Rust without interior mutability has no other place where threads can interact",
             "Send + Sync of JpQuery / JsonPathError / QueryRef is a type-check side condition (mc/static_assert)",
